@@ -410,16 +410,60 @@ class Executor(object):
         return None
 
     def op_limit(self, tid, op):
+        """A Limit / Residue object used for a short history of its own (`steps`: evaluations at
+        points via __call__ or .limit, attribute changes in between); the record is the list of the
+        results.  With `fresh_each` every evaluation gets a brand-new object built with the
+        configuration current at that point (the "same configuration built fresh" reference)."""
+        if 'steps' not in op:           # old-style plans / replay files: one regular point, diagnostic
+            fun = self._wrap_fun(tid, op['fun'])
+            kw = dict(op.get('opts', {}))
+            try:
+                lim = self.limits.Limit(fun, step=self._resolve_step(op.get('step')),
+                                        method=op.get('method', 'above'), order=op.get('order', 4),
+                                        full_output=True, **kw)
+                r = canon(lim(make_x(op['x'])))
+            except Exception as e:  # noqa: BLE001
+                r = canon(e)
+            return {'rec': r, 'diag': True}
         fun = self._wrap_fun(tid, op['fun'])
-        kw = dict(op.get('opts', {}))
+        cls = getattr(self.limits, op.get('cls', 'Limit'))
+        cfg = {'method': op.get('method', 'above'), 'full_output': bool(op.get('full', True))}
+        for key in ('order', 'pole_order'):
+            if key in op:
+                cfg[key] = op[key]
+
+        def build():
+            st = self._resolve_step(op.get('step'))
+            kw = dict(cfg)
+            if not hasattr(st, '__call__') and op.get('gopts'):
+                kw.update(op['gopts'])      # options of the CStepGenerator the object builds itself
+            return cls(fun, step=st, **kw)
+
+        def run():
+            out = []
+            obj = None
+            for stp in op['steps']:
+                try:
+                    if 'set' in stp:
+                        cfg[stp['set']] = stp['value']
+                        if obj is not None and not op.get('fresh_each'):
+                            setattr(obj, stp['set'], stp['value'])
+                        continue
+                    if obj is None or op.get('fresh_each'):
+                        obj = build()
+                    x = make_x(stp['x'])
+                    r = obj.limit(x) if stp.get('via') == 'limit' else obj(x)
+                    out.append(canon(r))
+                except Exception as e:  # noqa: BLE001 - the exception is the observation
+                    out.append(canon(e))
+            return out
+        ctx = self._begin_call(tid, op, want_trace=False)
         try:
-            lim = self.limits.Limit(fun, step=self._resolve_step(op.get('step')),
-                                    method=op.get('method', 'above'), order=op.get('order', 4),
-                                    full_output=True, **kw)
-            r = canon(lim(make_x(op['x'])))
-        except Exception as e:  # noqa: BLE001
-            r = canon(e)
-        return {'rec': r, 'diag': True}
+            rec = ('list', tuple(run()))
+        except BaseException as e:  # noqa: BLE001 - an injected abort: the op is faulted
+            rec = canon(e)
+        fired = self._end_call(tid, ctx)
+        return {'rec': rec, 'faulted': fired, 'nevals': ctx.nevals}
 
     DISPATCH = {
         'newgen': op_newgen, 'new': op_new, 'set': op_set, 'call': op_call, 'ddiff': op_ddiff,
